@@ -581,6 +581,7 @@ class Canon:
         node = self._close(node)
         node = _adjacent_def_use(node)
         node = self._close(node)
+        node = _Small().visit(node)
         node = _IfExp().visit(node)
         node.body = _hoist(_Blocks().block(node.body, "func"))
         node = self._calls(f, node)
@@ -843,7 +844,7 @@ def _aliases(fn):
     if fn.args.kwarg:
         params.add(fn.args.kwarg.arg)
     table = _statements(fn)
-    value, site, banned, mutated, loads = {}, {}, set(), set(), {}
+    value, site, banned, mutated, loads, last_use = {}, {}, set(), set(), {}, {}
     name_stores = {}   # name -> [(order, loops)]
     text_stores = {}   # text of a stored attribute / subscripted object -> [(order, loops)]
     for st, order, loops, in_try, body, i in table:
@@ -860,6 +861,7 @@ def _aliases(fn):
             if isinstance(n, ast.Name):
                 if isinstance(n.ctx, ast.Load):
                     loads[n.id] = loads.get(n.id, 0) + 1
+                    last_use[n.id] = max(last_use.get(n.id, -1), order if isinstance(st, ast.Assign) else order + 0.5)
                 elif not nested:
                     name_stores.setdefault(n.id, []).append((order, loops))
                     if not (isinstance(st, ast.Assign) and len(st.targets) == 1 and st.targets[0] is n):
@@ -912,7 +914,9 @@ def _aliases(fn):
                 ss = name_stores.get(n, [])
                 for o, l in ss:
                     if o > order:
-                        bad = True
+                        # rebinding after the last statement that reads the alias (or in that very assignment, whose right-hand side is evaluated first) is harmless
+                        if last_use.get(k, -1) > o or (set(l) & set(loops)):
+                            bad = True
                     elif set(l) & set(loops):
                         # stored inside a shared loop: fine only if that store *is* the loop header (for-target) binding, i.e. it comes before us in the same iteration
                         # and nothing else stores it
@@ -1035,6 +1039,14 @@ class _Small(ast.NodeTransformer):
                 for t, v in zip(st.targets[0].elts, st.value.elts):
                     out.append(ast.copy_location(ast.Assign(targets=[t], value=v, lineno=st.lineno), st))
                 continue
+            if isinstance(st, ast.Assign) and len(st.targets) == 1 and isinstance(st.targets[0], ast.Name) and isinstance(st.value, ast.IfExp):
+                t, v = st.targets[0].id, st.value
+                if isinstance(v.orelse, ast.Name) and v.orelse.id == t:
+                    out.append(ast.copy_location(ast.If(test=v.test, body=[ast.copy_location(ast.Assign(targets=st.targets, value=v.body, lineno=st.lineno), st)], orelse=[]), st))
+                    continue
+                if isinstance(v.body, ast.Name) and v.body.id == t:
+                    out.append(ast.copy_location(ast.If(test=negate(v.test), body=[ast.copy_location(ast.Assign(targets=st.targets, value=v.orelse, lineno=st.lineno), st)], orelse=[]), st))
+                    continue
             if isinstance(st, ast.If) and len(st.body) == 1 and len(st.orelse) == 1 and all(isinstance(x, ast.Assign) and len(x.targets) == 1 for x in (st.body[0], st.orelse[0])) \
                     and isinstance(st.body[0].targets[0], (ast.Name, ast.Attribute)) and txt(st.body[0].targets[0]) == txt(st.orelse[0].targets[0]) \
                     and not isinstance(st.orelse[0].value, ast.IfExp) and not isinstance(st.body[0].value, ast.IfExp):
